@@ -3,9 +3,15 @@
 // compute functions ran, the final contents and the sequence of yield points, evaluates the property's own predicates
 // on these observations (at-most-once computation, no placeholder ever returned, callers agree, no lost Store,
 // linearizability w.r.t. a plain map with compute-if-absent) and writes the cases for the Coq model.
+//
+// Values: the model's values are tokens with identity.  Every (program, schedule) is forced with the tokens represented as
+// small ints and, in addition, as Go values of other dynamic types (values.go: pointers, strings, floats including signed
+// zeros and NaNs, slices, maps, structs containing those, mixtures), decoded bit-exactly back to tokens; a panic inside a
+// map operation is a failing input of its own.
 package main
 
 import (
+	"crypto/sha256"
 	"encoding/json"
 	"fmt"
 	"hash/fnv"
@@ -109,7 +115,8 @@ type tcase struct {
 	sched []uint8
 	probe int // goroutine to probe after the schedule (-1: none)
 	kind  string
-	comp  bool // complete schedule
+	comp  bool   // complete schedule
+	vk    *vkind // nil: intKind
 }
 
 type obsDesc struct {
@@ -126,7 +133,10 @@ type caseDesc struct {
 	Schedule []int      `json:"schedule"`
 	Probe    *int       `json:"probe,omitempty"`
 	Kind     string     `json:"kind,omitempty"`
-	Obs      *obsDesc   `json:"obs,omitempty"`
+	// how the value tokens of the program were represented as Go values ("" in old replay files: int), and the table
+	VKind  string            `json:"vkind,omitempty"`
+	Values map[string]string `json:"values,omitempty"`
+	Obs    *obsDesc          `json:"obs,omitempty"`
 }
 
 func strs(l []obsv) []string {
@@ -156,6 +166,10 @@ type runner struct {
 	sh      *hx.Shards
 	blocked map[string]int
 	samples int
+	// model cases already written (hash of the Coq term): a run with another value kind whose observations, decoded to
+	// tokens, are identical to an emitted case is the same model computation and is not evaluated a second time
+	emitted  map[[sha256.Size]byte]bool
+	nsampled [2]int // samples taken: int kind, other kinds
 }
 
 func bucket(n int) string {
@@ -181,9 +195,16 @@ func (rn *runner) run(m *module, tc *tcase) *outcome {
 	for i, t := range tc.sched {
 		sched[i] = int(t)
 	}
-	o := runCase(m, tc.prog, sched, tc.probe)
+	vk := tc.vk
+	if vk == nil {
+		vk = intKind
+	}
+	o := runCase(m, tc.prog, sched, tc.probe, vk)
 	rep.Evaluations++
-	d := &caseDesc{Module: m.name, Program: tc.prog.Strings(), Schedule: sched, Kind: tc.kind}
+	d := &caseDesc{Module: m.name, Program: tc.prog.Strings(), Schedule: sched, Kind: tc.kind, VKind: vk.name}
+	if vk != intKind {
+		d.Values = vk.valuesOf(tc.prog)
+	}
 	if tc.probe >= 0 {
 		p := tc.probe
 		d.Probe = &p
@@ -223,6 +244,7 @@ func (rn *runner) run(m *module, tc *tcase) *outcome {
 	rep.Count(fmt.Sprintf("goroutines=%d", ngor))
 	rep.Count("schedule-length=" + bucket(len(sched)))
 	rep.Count("kind=" + tc.kind)
+	rep.Count("value-kind=" + vk.name)
 	rep.Count(fmt.Sprintf("finished=%v", o.finished))
 	if o.waiter {
 		rep.Count("runs-with-waiter")
@@ -248,7 +270,14 @@ func (rn *runner) run(m *module, tc *tcase) *outcome {
 		}
 	}
 	if ngor == 3 && o.waiter && o.overwrite && len(fails) == 0 && rn.samples%97 == 0 {
-		rep.Sample(d)
+		si, lim := 0, 5
+		if vk != intKind {
+			si, lim = 1, 3
+		}
+		if rn.nsampled[si] < lim {
+			rn.nsampled[si]++
+			rep.Sample(d)
+		}
 	}
 	if ngor == 3 && o.waiter && o.overwrite {
 		rn.samples++
@@ -257,6 +286,13 @@ func (rn *runner) run(m *module, tc *tcase) *outcome {
 	term := "{| c_prog := " + tc.prog.Coq() + "; c_sched := " + coqNats(sched) +
 		"; c_obs := {| o_rets := [" + strings.Join(coqRets, ";") + "]; o_computes := " + coqNats(o.computes[:]) +
 		"; o_final := " + coqObs(o.final) + "; o_points := " + coqNats(pts) + "; o_finished := " + hx.CoqBool(o.finished) + " |} |}"
+	th := sha256.Sum256([]byte(term))
+	if vk != intKind && rn.emitted[th] {
+		rep.Count("model-case=shared (same program, schedule and token-level observations as a case already written)")
+		return o
+	}
+	rn.emitted[th] = true
+	rep.Count("model-case=written")
 	b, err := json.Marshal(d)
 	if err != nil {
 		panic(err)
@@ -291,13 +327,82 @@ type budget struct {
 	rnd       int    // uniformly drawn complete schedules per sampled program
 	prefixPct int    // incomplete schedules (prefixes), in percent of the complete ones
 	probes    int    // wait probes
+	// value kinds: every case above runs with int values; in addition
+	extraKinds int  // ... each of them runs with this many of the other value kinds (a seeded rotation)
+	exhAll     bool // ... the cases of the exhaustively scheduled programs run with every value kind
+	seqOps     int  // sequential histories: one goroutine, up to this many operations, every value kind
+}
+
+func budgetOf(cfg *hx.Config) budget {
+	if cfg.Thorough() {
+		return budget{exhLimit: 300, bigSample: 100, covCap: 14, rnd: 4, prefixPct: 5, probes: 400, extraKinds: 2, exhAll: true, seqOps: 5}
+	}
+	return budget{exhLimit: 80, bigSample: 6, covCap: 10, rnd: 3, prefixPct: 5, probes: 120, extraKinds: 3, seqOps: 4}
+}
+
+// widen adds the value-kind dimension.  It uses its own PRNG stream so that the int-valued cases of generate are exactly
+// what they were before value kinds existed.
+func widen(cfg *hx.Config, cases []*tcase, rep *hx.Report) []*tcase {
+	b := budgetOf(cfg)
+	r := hx.NewRand(cfg.Seed ^ 0xC18C18C18)
+	others := kinds[1:]
+	var out, extra []*tcase
+	nextra := 0
+	for _, tc := range cases {
+		n := b.extraKinds
+		if b.exhAll && tc.kind == "exhaustive" {
+			n = len(others)
+		}
+		if n > len(others) {
+			n = len(others)
+		}
+		k0 := r.Intn(len(others))
+		for j := 0; j < n; j++ {
+			c := *tc
+			c.vk = others[(k0+j)%len(others)]
+			extra = append(extra, &c)
+			nextra++
+		}
+	}
+	// sequential histories: one goroutine, 1..seqOps operations over {LoadOrStore, Load, Store} x keys {0,1}, the first
+	// operation on key 0 (key swap), values 11, 12, ... in program order; the only schedule; every value kind.  They run
+	// first: the first failing input reported for a signature is then the simplest one.
+	nseq := 0
+	level := []shape{{}}
+	for n := 1; n <= b.seqOps; n++ { // shortest histories first
+		var next []shape
+		for _, t := range level {
+			for a := 0; a < 6; a++ {
+				if len(t) == 0 && a%2 == 1 {
+					continue
+				}
+				next = append(next, append(append(shape{}, t...), uint8(a)))
+			}
+		}
+		level = next
+		for _, t := range level {
+			p := mkProgram([]shape{t})
+			explore(p).allSchedules(func(s []uint8) {
+				for _, k := range kinds {
+					out = append(out, &tcase{prog: p, sched: s, probe: -1, kind: "sequential", comp: true, vk: k})
+				}
+				nseq++
+			})
+		}
+	}
+	out = append(append(out, cases...), extra...)
+	names := make([]string, len(kinds))
+	for i, k := range kinds {
+		names[i] = k.name
+	}
+	rep.Extra["value_kinds"] = names
+	rep.Extra["cases_with_other_value_kinds"] = nextra
+	rep.Extra["sequential_histories"] = fmt.Sprintf("%d (up to %d operations) x %d value kinds", nseq, b.seqOps, len(kinds))
+	return out
 }
 
 func generate(cfg *hx.Config, r *hx.Rand, rep *hx.Report) []*tcase {
-	b := budget{exhLimit: 80, bigSample: 6, covCap: 10, rnd: 3, prefixPct: 5, probes: 120}
-	if cfg.Thorough() {
-		b = budget{exhLimit: 300, bigSample: 100, covCap: 14, rnd: 4, prefixPct: 5, probes: 400}
-	}
+	b := budgetOf(cfg)
 	progs := enumeratePrograms()
 	var cases []*tcase
 	var probeCands []*tcase
@@ -444,7 +549,12 @@ func main() {
 	rep := hx.NewReport("programs: up to 3 goroutines x up to 2 operations over {LoadOrStore(k,f), Load(k), Store(k,v)}, keys {0,1}, " +
 		"reduced by goroutine symmetry and key swap; schedules from the Go copy of the model: all complete schedules of the programs " +
 		"with few schedules, transition-coverage + uniformly drawn complete schedules for (a seeded sample of) the others, ~5% strict prefixes, " +
-		"and wait probes; every schedule is forced on both module generations. distinct by (program, schedule), module-independent; " +
+		"and wait probes; every schedule is forced on both module generations. VALUES: the model's value tokens are represented " +
+		"as ints in every case and additionally (a seeded rotation per case; every kind for the sequential histories) as pointer, string, " +
+		"float64 (+0/-0, NaN payloads, infinities), complex128, slice, map, struct with a slice field, struct with float fields, " +
+		"a mixture of dynamic types incl. typed nils, and the mixture inside struct{V interface{}}; returned values are decoded " +
+		"bit-exactly (Float64bits, identity of allocations); sequential histories: one goroutine, up to 4 (thorough 5) operations, " +
+		"every value kind. distinct by (program, schedule), module- and value-kind-independent; " +
 		"non-trivial = at least two goroutines with operations AND a contended step (a goroutine found a placeholder in the map: " +
 		"yield point 2 or 7, or a Store that did not win: yield point 9)")
 	rep.Exhaustive = false
@@ -462,6 +572,11 @@ func main() {
 			panic(err)
 		}
 		tc := &tcase{probe: -1, kind: "replay"}
+		if rp.Case.VKind != "" {
+			if tc.vk = kindByName(rp.Case.VKind); tc.vk == nil {
+				panic("replay: unknown value kind " + rp.Case.VKind)
+			}
+		}
 		for _, t := range rp.Case.Program {
 			var ops []op
 			for _, s := range t {
@@ -482,7 +597,7 @@ func main() {
 		if rp.Case.Probe != nil {
 			tc.probe = *rp.Case.Probe
 		}
-		rn := &runner{rep: rep, sh: hx.NewShards(cfg.Out, header, "C18Corr", 100), blocked: map[string]int{}}
+		rn := &runner{rep: rep, sh: hx.NewShards(cfg.Out, header, "C18Corr", 100), blocked: map[string]int{}, emitted: map[[sha256.Size]byte]bool{}}
 		found := false
 		for i := range modules {
 			if modules[i].name == rp.Case.Module {
@@ -501,8 +616,12 @@ func main() {
 
 	r := hx.NewRand(cfg.Seed)
 	cases := generate(cfg, r, rep)
+	nint := len(cases)
+	cases = widen(cfg, cases, rep)
 	tgen := time.Since(t0)
-	total := len(cases) * len(modules)
+	// shards are sized for the model cases that will be written: the int-valued ones and the sequential histories; runs
+	// of other value kinds only add a model case when their observations differ
+	total := (nint + (len(cases)-nint)/len(kinds)) * len(modules)
 	nsh := (total + 2499) / 2500
 	if nsh < 16 {
 		nsh = 16
@@ -511,7 +630,7 @@ func main() {
 	if per < 1 {
 		per = 1
 	}
-	rn := &runner{rep: rep, sh: hx.NewShards(cfg.Out, header, "C18Corr", per), blocked: map[string]int{}}
+	rn := &runner{rep: rep, sh: hx.NewShards(cfg.Out, header, "C18Corr", per), blocked: map[string]int{}, emitted: map[[sha256.Size]byte]bool{}}
 	for i := range modules {
 		m := &modules[i]
 		for _, tc := range cases {
